@@ -8,8 +8,11 @@ import (
 	"sync"
 
 	ledger "github.com/formancehq/ledger/internal"
+	"github.com/formancehq/ledger/internal/bus"
+	"github.com/formancehq/ledger/internal/engine/command"
 	"github.com/formancehq/ledger/internal/storage/sqlutils"
 	"github.com/formancehq/ledger/verifharness/storeform"
+	"github.com/formancehq/stack/libs/go-libs/logging"
 	"github.com/formancehq/stack/libs/go-libs/metadata"
 )
 
@@ -353,4 +356,20 @@ func SortedKeys[V any](m map[string]V) []string {
 	}
 	sort.Strings(ks)
 	return ks
+}
+
+// Standalone builds a Commander over a fresh model store outside any
+// scheduler: requests run to completion synchronously (C09 and the HTTP
+// checks use it). stop() shuts the batch runner down.
+func Standalone() (store *ModelStore, commander *command.Commander, stop func()) {
+	s := &Sim{plan: &Plan{}}
+	store = newModelStore(s)
+	s.store = store
+	commander = command.New(store, command.NewDefaultLocker(), command.NewCompiler(64), command.NewReferencer(), bus.NewNoOpMonitor())
+	ctx := logging.ContextWithLogger(context.Background(), nopLogger{})
+	if err := commander.Init(ctx); err != nil {
+		panic(err)
+	}
+	go commander.Run(ctx)
+	return store, commander, commander.Close
 }
